@@ -415,7 +415,7 @@ class PropertyCheck:
                 tok, tout = coqc(Path(t))
                 self.ob("tie-proof", f"{Path(t).name} (theorems re-checked against regenerated model)", tok, tout)
             if ok and self.module and self.theorems:
-                pok, res, raw = print_assumptions(self.module, self.theorems, self.id)
+                pok, res, raw = print_assumptions(self.module, self.theorems, self.id, getattr(self, "theorem_modules", ()))
                 for t in self.theorems:
                     if t not in res or not pok:
                         self.ob("theorem", t, False, raw)
